@@ -40,6 +40,16 @@ CLAIMED = {
                 "F-COHERENCE witnesses replayed from known_findings.json.",
         "technique": TECH_E2,
     },
+    "C05": {
+        "category": "exploration",
+        "text": "Bounded-exhaustive comparison of the ALL result with the complete optimal set of the reference models, key for key, "
+                "and of ANY with membership in it, for thl/exh (quick P4x3, thorough P4x4 + 5x<=3) and the four labelled solvers "
+                "(quick O3x2x3, U3x3x3, U4x2x2; thorough O3x3x3, O4x3x2, U4x3x2, U4x2x4, U5x2x2) on a tie-rich coherent cost menu.",
+        "design_ref": "6 (C05)",
+        "note": "Trusted: the reference models' optimal sets (brute force / Bellman, cross-validated). Coherent region only; "
+                "F-COHERENCE set witnesses replayed from known_findings.json.",
+        "technique": TECH_E2,
+    },
     "C16": {
         "category": "model_checking",
         "text": "Explicit-state BFS over all reachable states of real Entry objects and table cells (1-3 dimensional, "
